@@ -15,7 +15,7 @@ from .. import sp
 ID = "C19"
 META = {
     "technique": "runtime monitoring: icontract postcondition on Entry mutators + lock-step insertion-ordered dict model + single-attribute perturbation monitor on __eq__ of parsed blocks and fields",
-    "level_text": "All sequences of mutating operations (set_field, item assignment, pop, item deletion x 4 keys incl. case variants) to depth k from three start entries, and random sequences of depth 30, are executed on the real Entry; after each step every read operation (get, in, [], fields, fields_dict, items, ENTRYTYPE/ID) is compared with a Python dict subjected to the same operations. Every block and field of parsed documents is compared with its copy/deepcopy (must be equal) and with every single-attribute perturbation (must be unequal both ways). A third of the operation sequences start from an entry that comes out of the real parser (every source form of a field-less entry; default and empty stack) next to a witness entry of the same form that is never operated on and must stay unchanged, unshared and re-parsable. Perturbations include moving raw text and start line to None / '' / 0 / -1. Four further operations use arguments related to the entry's own state (pop with the stored Field / an equal copy / another key's Field as default, set_field of the object already stored): exhaustive to depth 2 (thorough 3) with the others and in every random sequence.",
+    "level_text": "All sequences of mutating operations (set_field, item assignment, pop, item deletion x 4 keys incl. case variants) to depth k from three start entries, and random sequences of depth 30, are executed on the real Entry; after each step every read operation (get, in, [], fields, fields_dict, items, ENTRYTYPE/ID) is compared with a Python dict subjected to the same operations. Every block and field of parsed documents is compared with its copy/deepcopy (must be equal) and with every single-attribute perturbation (must be unequal both ways). A third of the operation sequences start from an entry that comes out of the real parser (every source form of a field-less entry; default and empty stack) next to a witness entry of the same form that is never operated on and must stay unchanged, unshared and re-parsable. Perturbations include moving raw text and start line to None / '' / 0 / -1. Four further operations use arguments related to the entry's own state (pop with the stored Field / an equal copy / another key's Field as default, set_field of the object already stored): exhaustive to depth 2 (thorough 3) with the others and in every random sequence. A copy.copy twin of the entry (every third case; half of them looked at only once, after the last operation) must stay one consistent mapping whatever it shares with the original.",
     "level_note": "`del entry[absent]`: KeyError or a no-op are both accepted (statement and documented contract disagree), fields must stay unchanged",
 }
 RULE = ("mapping cases = operation sequences over keys {a, A, ab, b}: exhaustive to depth k from 3 start entries + random depth 30; non-trivial = "
